@@ -71,8 +71,8 @@ def repair(t, env: dict[str, int] | None = None):
     if k == "inv":
         c, v = repair(t[1], env)
         if v < 0 or v >= 1 << 32:
-            if c[0] == "neg" and 0 <= -v < 1 << 32:
-                c, v = c[1], -v  # ~-x  ->  ~x
+            if c[0] == "neg":
+                c, v = ["neg", ["lit", 0, "d"]], 0  # ~-x  ->  ~-0 : the operators survive, the operand becomes defined
             else:
                 v = abs(v) % (1 << 32)
                 c = ["lit", v, "x"]
